@@ -82,7 +82,196 @@ type Builder struct {
 	vars   []*Term
 	ufs    map[string][]int // name -> arg widths..., result width (last)
 	ufApps []*Term
+	ctree  map[*Term]int // number of leaves if the term is an ite-tree with constant leaves, else 0
+	vrange map[*Term][2]uint64 // declared ranges of input variables (assumed in every path that uses them)
+	rcache map[*Term][2]uint64
 }
+
+// Rng returns an unsigned interval [lo,hi] that always contains the value of t (given the declared variable ranges).
+func (b *Builder) Rng(t *Term) (uint64, uint64) {
+	if t.op == OpConst {
+		return t.val, t.val
+	}
+	if t.w == 0 {
+		return 0, 1
+	}
+	if r, ok := b.rcache[t]; ok {
+		return r[0], r[1]
+	}
+	if b.rcache == nil {
+		b.rcache = map[*Term][2]uint64{}
+	}
+	full := mask(t.w)
+	lo, hi := uint64(0), full
+	switch t.op {
+	case OpVar:
+		if r, ok := b.vrange[t]; ok {
+			lo, hi = r[0], r[1]
+		}
+	case OpIte:
+		l1, h1 := b.Rng(t.args[1])
+		l2, h2 := b.Rng(t.args[2])
+		lo, hi = l1, h1
+		if l2 < lo {
+			lo = l2
+		}
+		if h2 > hi {
+			hi = h2
+		}
+	case OpZext:
+		lo, hi = b.Rng(t.args[0])
+	case OpSext:
+		l, h := b.Rng(t.args[0])
+		if h < 1<<uint(t.args[0].w-1) {
+			lo, hi = l, h
+		}
+	case OpExtract:
+		l, h := b.Rng(t.args[0])
+		if h>>uint(t.p2) <= mask(t.w) {
+			lo, hi = l>>uint(t.p2), h>>uint(t.p2)
+		}
+	case OpAdd:
+		l1, h1 := b.Rng(t.args[0])
+		l2, h2 := b.Rng(t.args[1])
+		if h1 <= full-h2 && h1+h2 <= full { // no wrap
+			lo, hi = l1+l2, h1+h2
+		}
+	case OpSub:
+		l1, h1 := b.Rng(t.args[0])
+		l2, h2 := b.Rng(t.args[1])
+		if l1 >= h2 { // never negative
+			lo, hi = l1-h2, h1-l2
+		}
+	case OpBAnd:
+		_, h1 := b.Rng(t.args[0])
+		_, h2 := b.Rng(t.args[1])
+		hi = h1
+		if h2 < hi {
+			hi = h2
+		}
+	case OpBOr, OpBXor:
+		_, h1 := b.Rng(t.args[0])
+		_, h2 := b.Rng(t.args[1])
+		m := h1 | h2
+		// smallest all-ones mask covering both
+		for m&(m+1) != 0 {
+			m |= m >> 1
+		}
+		if m <= full {
+			hi = m
+		}
+		if t.op == OpBOr {
+			l1, _ := b.Rng(t.args[0])
+			l2, _ := b.Rng(t.args[1])
+			lo = l1
+			if l2 > lo {
+				lo = l2
+			}
+		}
+	case OpLshr:
+		if t.args[1].IsConst() && t.args[1].val < 64 {
+			l, h := b.Rng(t.args[0])
+			lo, hi = l>>t.args[1].val, h>>t.args[1].val
+		}
+	case OpShl:
+		if t.args[1].IsConst() && t.args[1].val < 64 {
+			l, h := b.Rng(t.args[0])
+			k := t.args[1].val
+			if h <= full>>k {
+				lo, hi = l<<k, h<<k
+			}
+		}
+	case OpMul:
+		l1, h1 := b.Rng(t.args[0])
+		l2, h2 := b.Rng(t.args[1])
+		if h1 != 0 && h2 <= full/h1 {
+			lo, hi = l1*l2, h1*h2
+		} else if h1 == 0 {
+			lo, hi = 0, 0
+		}
+	case OpUdiv:
+		l1, h1 := b.Rng(t.args[0])
+		l2, h2 := b.Rng(t.args[1])
+		if l2 > 0 {
+			lo, hi = l1/h2, h1/l2
+		}
+	case OpUrem:
+		_, h1 := b.Rng(t.args[0])
+		l2, h2 := b.Rng(t.args[1])
+		if l2 > 0 {
+			hi = h2 - 1
+			if h1 < hi {
+				hi = h1
+			}
+		}
+	}
+	if lo > hi {
+		lo, hi = 0, full
+	}
+	b.rcache[t] = [2]uint64{lo, hi}
+	return lo, hi
+}
+
+// ClearVarRange removes a declared range (and the cached intervals, which may depend on it).
+func (b *Builder) ClearVarRange(v *Term) {
+	delete(b.vrange, v)
+	b.rcache = nil
+}
+
+// SetVarRange declares the range of an input variable.
+func (b *Builder) SetVarRange(v *Term, lo, hi uint64) {
+	if b.vrange == nil {
+		b.vrange = map[*Term][2]uint64{}
+	}
+	b.vrange[v] = [2]uint64{lo, hi}
+	b.rcache = nil
+}
+
+const maxConstTree = 48
+
+// constTree reports the number of leaves of t if it is an ite-tree whose leaves are all constants (0 otherwise).
+func (b *Builder) constTree(t *Term) int {
+	if t.op == OpConst {
+		return 1
+	}
+	if t.op != OpIte {
+		return 0
+	}
+	if n, ok := b.ctree[t]; ok {
+		return n
+	}
+	if b.ctree == nil {
+		b.ctree = map[*Term]int{}
+	}
+	l, r := b.constTree(t.args[1]), b.constTree(t.args[2])
+	n := 0
+	if l > 0 && r > 0 && l+r <= maxConstTree {
+		n = l + r
+	}
+	b.ctree[t] = n
+	return n
+}
+
+// mapTree applies f to the constant leaves of an ite-tree.
+func (b *Builder) mapTree(t *Term, f func(*Term) *Term) *Term {
+	memo := map[*Term]*Term{}
+	var rec func(x *Term) *Term
+	rec = func(x *Term) *Term {
+		if x.op == OpConst {
+			return f(x)
+		}
+		if r, ok := memo[x]; ok {
+			return r
+		}
+		r := b.Ite(x.args[0], rec(x.args[1]), rec(x.args[2]))
+		memo[x] = r
+		return r
+	}
+	return rec(t)
+}
+
+func (b *Builder) isTree(t *Term) bool { return t.op == OpIte && b.constTree(t) > 1 }
+
 
 func NewBuilder() *Builder {
 	b := &Builder{tab: map[termKey]*Term{}, ufTab: map[string]*Term{}, ufs: map[string][]int{}}
@@ -349,6 +538,13 @@ func (b *Builder) Eq(x, y *Term) *Term {
 	if x.IsConst() && y.IsConst() {
 		return b.Bool(x.val == y.val)
 	}
+	if x.w > 0 {
+		lx, hx := b.Rng(x)
+		ly, hy := b.Rng(y)
+		if hx < ly || hy < lx {
+			return b.ff
+		}
+	}
 	if x.w == 0 {
 		if x.IsConst() {
 			if x.val == 1 {
@@ -362,6 +558,12 @@ func (b *Builder) Eq(x, y *Term) *Term {
 			}
 			return b.Not(x)
 		}
+	}
+	if y.IsConst() && b.isTree(x) {
+		return b.mapTree(x, func(l *Term) *Term { return b.Bool(l.val == y.val) })
+	}
+	if x.IsConst() && b.isTree(y) {
+		return b.mapTree(y, func(l *Term) *Term { return b.Bool(l.val == x.val) })
 	}
 	// eq(ite(c, k1, k2), k) with constants folds
 	if y.IsConst() && x.op == OpIte && x.args[1].IsConst() && x.args[2].IsConst() {
@@ -395,6 +597,42 @@ func (b *Builder) Cmp(op Op, x, y *Term) *Term {
 	}
 	if x == y {
 		return b.Bool(op == OpUle || op == OpSle)
+	}
+	if y.IsConst() && b.isTree(x) {
+		return b.mapTree(x, func(l *Term) *Term { return b.Cmp(op, l, y) })
+	}
+	if x.IsConst() && b.isTree(y) {
+		return b.mapTree(y, func(l *Term) *Term { return b.Cmp(op, x, l) })
+	}
+	if op == OpUlt || op == OpUle {
+		lx, hx := b.Rng(x)
+		ly, hy := b.Rng(y)
+		if op == OpUlt {
+			if hx < ly {
+				return b.tt
+			}
+			if lx >= hy {
+				return b.ff
+			}
+		} else {
+			if hx <= ly {
+				return b.tt
+			}
+			if lx > hy {
+				return b.ff
+			}
+		}
+	} else {
+		// signed comparison of two values known to be non-negative is the unsigned one
+		_, hx := b.Rng(x)
+		_, hy := b.Rng(y)
+		top := uint64(1) << uint(x.w-1)
+		if hx < top && hy < top {
+			if op == OpSlt {
+				return b.Cmp(OpUlt, x, y)
+			}
+			return b.Cmp(OpUle, x, y)
+		}
 	}
 	if op == OpUlt && y.IsConst() && y.val == 0 {
 		return b.ff
@@ -494,6 +732,12 @@ func (b *Builder) Bin(op Op, x, y *Term) *Term {
 		if v, ok := foldBin(op, w, x.val, y.val); ok {
 			return b.BV(w, v)
 		}
+	}
+	if y.IsConst() && b.isTree(x) {
+		return b.mapTree(x, func(l *Term) *Term { return b.Bin(op, l, y) })
+	}
+	if x.IsConst() && b.isTree(y) {
+		return b.mapTree(y, func(l *Term) *Term { return b.Bin(op, x, l) })
 	}
 	switch op {
 	case OpAdd, OpBOr, OpBXor:
@@ -604,6 +848,9 @@ func (b *Builder) BNot(a *Term) *Term {
 	if a.IsConst() {
 		return b.BV(a.w, ^a.val)
 	}
+	if b.isTree(a) {
+		return b.mapTree(a, func(l *Term) *Term { return b.BNot(l) })
+	}
 	if a.op == OpBNot {
 		return a.args[0]
 	}
@@ -612,6 +859,9 @@ func (b *Builder) BNot(a *Term) *Term {
 func (b *Builder) Neg(a *Term) *Term {
 	if a.IsConst() {
 		return b.BV(a.w, -a.val)
+	}
+	if b.isTree(a) {
+		return b.mapTree(a, func(l *Term) *Term { return b.Neg(l) })
 	}
 	return b.mk(OpNeg, a.w, a)
 }
@@ -627,6 +877,9 @@ func (b *Builder) Extract(a *Term, hi, lo int) *Term {
 	if a.IsConst() {
 		return b.BV(w, a.val>>uint(lo))
 	}
+	if b.isTree(a) {
+		return b.mapTree(a, func(l *Term) *Term { return b.Extract(l, hi, lo) })
+	}
 	switch a.op {
 	case OpZext, OpSext:
 		in := a.args[0]
@@ -635,6 +888,9 @@ func (b *Builder) Extract(a *Term, hi, lo int) *Term {
 		}
 		if a.op == OpZext && lo >= in.w {
 			return b.BV(w, 0)
+		}
+		if a.op == OpZext && lo < in.w && hi >= in.w {
+			return b.Zext(b.Extract(in, in.w-1, lo), w)
 		}
 	case OpConcat:
 		lw := a.args[1].w
@@ -706,6 +962,9 @@ func (b *Builder) Zext(a *Term, w int) *Term {
 	if a.IsConst() {
 		return b.BV(w, a.val)
 	}
+	if b.isTree(a) {
+		return b.mapTree(a, func(l *Term) *Term { return b.Zext(l, w) })
+	}
 	if a.op == OpZext {
 		return b.Zext(a.args[0], w)
 	}
@@ -724,6 +983,9 @@ func (b *Builder) Sext(a *Term, w int) *Term {
 	}
 	if a.IsConst() {
 		return b.BV(w, uint64(sext64(a.val, a.w)))
+	}
+	if b.isTree(a) {
+		return b.mapTree(a, func(l *Term) *Term { return b.Sext(l, w) })
 	}
 	if a.op == OpZext { // zero-extended value is non-negative
 		return b.Zext(a.args[0], w)
